@@ -714,6 +714,60 @@ def s_mult(n: size, x: f32[n, 3]):
             x[i, j] = 1.0
 
 
+@sub
+@seed("sub", "window", "loop1")
+@proc
+def sp_fill8(w: [f32][8]):
+    for j in seq(0, 8):
+        w[j] = 1.0
+
+
+@sub
+@seed("sub", "window", "loop1")
+@proc
+def sp_copy8(dst: [f32][8], src: [f32][8]):
+    for j in seq(0, 8):
+        dst[j] = src[j]
+
+
+@seed("winwin", "call", "alloc")
+@proc
+def s_winwin_call(out: f32[8]):
+    # x is only touched through y = x[4:8, :]; row 6 of x is written and read through the window of a window
+    # y[2, 0:8] (point coordinate on a dimension whose outer window starts at 4) handed to sub-procedures
+    x: f32[12, 8]
+    y = x[4:8, 0:8]
+    sp_fill8(y[2, 0:8])
+    sp_copy8(out[0:8], y[2, 0:8])
+
+
+@seed("winwin", "call", "alloc", "loop1")
+@proc
+def s_winwin_call_loop(out: f32[4, 8]):
+    x: f32[10, 8]
+    y = x[6:10, 0:8]
+    for i in seq(0, 4):
+        sp_fill8(y[i, 0:8])
+    for i in seq(0, 4):
+        for j in seq(0, 8):
+            out[i, j] = x[6 + i, j]
+
+
+@seed("alloc", "if_else", "free")
+@proc
+def s_else_last_use(n: size, f: index, src: f32[n], dst: f32[n]):
+    # the last use of tmp is in the else-branch
+    tmp: f32[n]
+    for i in seq(0, n):
+        tmp[i] = 2.0 * src[i]
+    if f > 1:
+        for i in seq(0, n):
+            dst[i] = src[i]
+    else:
+        for i in seq(0, n):
+            dst[i] = tmp[i]
+
+
 def by_name(name):
     for nm, p, tags in SEEDS:
         if nm == name:
